@@ -21,7 +21,7 @@ import vlib
 
 PROP_FILE = "Props/Properties_C19.v"
 WRAPS = ("open", "opendir", "readdir", "closedir", "mkdir", "rmdir", "unlink", "rename", "stat", "fstat", "fopen",
-         "read", "write", "close", "strftime", "compress", "uncompress", "rfbCloseClient")
+         "read", "write", "close", "strftime", "compress", "uncompress", "rfbCloseClient", "creat", "utime")
 MARK = ("cfg", "msg", "chunk", "gone", "tight")
 MAX_PATH = 260
 
@@ -133,7 +133,7 @@ def gen_cases(ctx, root):
     for ln in lens:
         for style in ("drive", "home", "nohome"):
             for (ct, cp) in [(DCR, 1), (FTR, 0), (OFFER, 0), (CMD, 1), (CMD, 4), (CMD, 5)]:
-                if quick and rng.random() < 0.6:
+                if quick and rng.random() < (0.6 if ln not in (258, 259, 260, 261) else (0.0 if (ct, cp) in ((CMD, 1), (FTR, 0)) else 0.5)):
                     continue
                 a100 = b"a" * 100 + b"/" + b"b" * 100 + b"/"
                 if style == "drive":
@@ -151,6 +151,20 @@ def gen_cases(ctx, root):
                     home = "none"
                 pl, ex = payload_for(ct, cp, p)
                 add("maxpath", dict(permit=1, cb="none", home=home), [M(ct, cp, 0, pl, extra=ex), ("gone",)])
+    # C'. every fixed-size buffer exactly at and beyond its limit (always part of the quick tier)
+    import zlib as _z
+    for tl in (258, 259, 260, 261, 1000):          # szFileTime[260]: the text after the last ','
+        add("bounds", dict(permit=1, cb="none", home="sb"), [M(OFFER, 0, 3, b"out/t.bin," + b"9" * tl, extra=b"\0\0\0\0"), M(FPKT, 0, 0, b"abc"), M(EOFT), ("gone",)])
+    for n in (8191, 8192, 8193, 20000):            # sz_rfbBlockSize: raw packets and packets that inflate to n bytes (compBuff[8192])
+        raw = bytes((i * 31 + 7) & 255 for i in range(n))
+        add("bounds", dict(permit=1, cb="none", home="sb"), [M(OFFER, 0, n, b"out/p.bin,x", extra=b"\0\0\0\0"), M(FPKT, 0, 0, raw), M(FPKT, 0, 1, _z.compress(b"A" * n)), M(EOFT), ("gone",)])
+    for f in (b"exact.bin", b"exact1.bin", b"big.txt"):      # files of 8192, 8193, 16484 bytes through the 8192-byte chunk reader
+        for comp in (0, 1):
+            add("bounds", dict(permit=1, cb="none", home="sb"), [M(FTR, 0, comp, f), M(FHDR, 0, 1), ("chunk",), ("chunk",), ("chunk",), ("chunk",), ("gone",)])
+    add("bounds", dict(permit=1, cb="none", home="sb"), [M(DCR, 1, 0, b"longnames"), ("gone",)])          # entry name of 255 characters (cFileName[260], retfilename[520])
+    for ln in (258, 259, 260):                     # directory path at MAX_PATH with long entry names
+        p = (b"C:" + sb.encode() + b"/longnames" + b"/." * 200)[:ln]
+        add("bounds", dict(permit=1, cb="none", home="sb"), [M(DCR, 1, 0, p), ("gone",)])
     # D. transfer sequences
     for _ in range(60 * mult):
         ops = []
@@ -211,19 +225,47 @@ def gen_cases(ctx, root):
         if ops[-1] != ("gone",):
             ops.append(("gone",))
         add("mixed", dict(permit=rng.choice([1, 1, 1, 0]), cb=rng.choice(["none", "none", "1", "10", "110", "1111110", "0"]), home="sb"), ops)
-    # G. TightVNC 1.3 extension: gate x path shapes
+    # G. TightVNC 1.3 extension: gate x message types x path shapes; message sequences (stored upload name)
+    PM = 4096
     tpaths = [b"/dir1", b"/", b"/dir1/sub", b"/nonexistent", b"/../out", b"/dir1/../../out", b"/..", b"/../../..", b"dir1", b"/dir1/./sub/..",
-              b"/" + b"a" * 100, b"/" + b"q" * 5000]
+              b"/" + b"a" * 100, b"/" + b"q" * (PM - 2), b"/" + b"q" * (PM - 1), b"/" + b"q" * PM, b"/" + b"q" * 5000, b"/a\x00/../x", b"/...", b"/.. /x"]
     for (en, vo) in [(1, 0), (1, 0), (0, 0), (1, 1), (0, 1)]:
         for p in tpaths:
-            for what in ("list", "mkdir"):
-                if quick and rng.random() < 0.4:
+            for what in ("list", "mkdir", "download", "upload"):
+                if quick and rng.random() < (0.55 if len(p) < 3000 else 0.0):
                     continue
-                if what == "mkdir":
+                if what in ("mkdir", "upload"):
                     p2 = p.rstrip(b"/") + b"/made" if len(p) < 200 else p
                 else:
                     p2 = p
-                add("tight", dict(permit=0, cb="none", home="sb"), [("tight", en, vo, rng.choice(["/dir1", "", "/dir1/sub"]), what, p2)])
+                add("tight", dict(permit=0, cb="none", home="sb"), [("tight", en, vo, rng.choice(["/dir1", "", "/dir1/sub"]), [(what, p2)])])
+    outside = b"/.." + sb.encode() + b"/file.txt"
+    seqs = [
+        [("upload", b"/up.bin"), ("uploaddata", b"hello"), ("uploaddone", b"")],
+        [("upload", b"/up.bin"), ("uploaddata", b"hello"), ("uploadfail", b"oops")],
+        [("upload", b"/up.bin"), ("uploaddatac", b"zz"), ("list", b"/")],
+        [("upload", b"/up.bin"), ("upload", outside), ("uploadfail", b"oops")],          # stale name: unlink
+        [("upload", outside), ("uploaddone", b"")],                                         # stale name: utime
+        [("upload", b"/up.bin"), ("upload", b"no-slash"), ("uploaddatac", b"x")],
+        [("upload", b"/nonexistent/up.bin"), ("uploadfail", b"r"), ("uploaddone", b"")],
+        [("uploaddone", b""), ("uploadfail", b"x"), ("dlcancel", b"why")],
+        [("download", b"/a.txt"), ("dlcancel", b"stop"), ("download", b"/sub"), ("download", b"/../file.txt")],
+        [("list", b"/"), ("mkdir", b"/d1"), ("mkdir", b"/d1/d2"), ("list", b"/d1"), ("upload", b"/d1/f"), ("uploaddone", b"")],
+        [("upload", b"/up.bin"), ("uploadfail", b""), ("uploadfail", b"now")],
+        [("mkdir", b"/" + b"m" * (PM - 2 - 40)), ("mkdir", b"/" + b"m" * (PM - 2)), ("list", b"/")],
+    ]
+    for sq in seqs:
+        for (en, vo) in [(1, 0), (1, 0), (0, 0), (1, 1)]:
+            if quick and (en, vo) != (1, 0) and rng.random() < 0.5:
+                continue
+            add("tight-seq", dict(permit=0, cb="none", home="sb"), [("tight", en, vo, rng.choice(["/dir1", "/dir1"]), sq)])
+    for _ in range(20 * mult):
+        sq = []
+        for _ in range(rng.randint(1, 5)):
+            k = rng.choice(["list", "mkdir", "download", "upload", "upload", "uploaddata", "uploaddatac", "uploaddone", "uploadfail", "dlcancel"])
+            a = rng.choice(tpaths[:11] + [outside, b"/up.bin", b"/sub/n"]) if k in ("list", "mkdir", "download", "upload") else rng.choice([b"", b"x", b"data"])
+            sq.append((k, a))
+        add("tight-seq", dict(permit=0, cb="none", home="sb"), [("tight", 1, 0, "/dir1", sq)])
     return cases
 
 
@@ -234,7 +276,7 @@ def case_lines(k, case):
         if op[0] == "msg":
             L.append("msg %s%s" % (hx(op[1]), " eof" if op[2] else ""))
         elif op[0] == "tight":
-            L.append("tight %d %d %s %s %s" % (op[1], op[2], hx(op[3].encode()), op[4], hx(op[5])))
+            L.append("tight %d %d %s %s" % (op[1], op[2], hx(op[3].encode()), " ".join("%s %s" % (k, hx(a)) for k, a in op[4])))
         else:
             L.append(op[0])
     return L
@@ -252,7 +294,8 @@ def parse_case_lines(lines):
         if q[0] == "msg":
             ops.append(("msg", unhx(q[1]) if len(q) > 1 else b"", len(q) > 2 and q[2] == "eof"))
         elif q[0] == "tight":
-            ops.append(("tight", int(q[1]), int(q[2]), unhx(q[3]).decode("latin-1"), q[4], unhx(q[5])))
+            rest = [t for t in q[4:] if not t.startswith("creat:")]
+            ops.append(("tight", int(q[1]), int(q[2]), unhx(q[3]).decode("latin-1"), [(rest[i], unhx(rest[i + 1])) for i in range(0, len(rest) - 1, 2)]))
         else:
             ops.append((q[0],))
     return dict(cls=hdr[2] if len(hdr) > 2 else "corpus", cfg=cfg, ops=ops)
@@ -284,11 +327,59 @@ def run_both(ctx, env, cases):
         blocks = op_blocks(cc[i][1]) if i < len(cc) else []
         ms.append(s[0])
         for j, opline in enumerate(s[1:]):
+            if opline.startswith("tight ") and j < len(blocks):
+                b = blocks[j]
+                cr = "".join("1" if y == "= ok" else "0" for x, y in zip(b, b[1:] + [""]) if x.startswith("fs creat "))
+                opline += " creat:" + cr
             ms.append(opline)
             if j < len(blocks):
                 ms += [l for l in blocks[j][1:] if l.startswith("= ")]
     rc2, mout, merr = vlib.run_driver([env["mexe"], env["root"]], "\n".join(ms) + "\n", timeout=2400, unlimited_stack=True)
     return (rc1, cout, cerr), (rc2, mout, merr)
+
+
+TIGHT_OPS = ("creat", "unlink", "utime", "mkdir", "opendir", "stat", "openr")
+
+
+def tight_msgs(block):
+    """lines of a tight block -> per message list of (op, path-hex), children stats of a listed directory dropped"""
+    out, cur, dirs = [], None, []
+    for l in block:
+        if l.startswith("m "):
+            cur, dirs = [], []
+            out.append(cur)
+        elif cur is not None and l.startswith("fs ") and l.split()[1] in TIGHT_OPS and len(l.split()) > 2:
+            q = l.split()
+            if q[1] == "opendir":
+                dirs.append(q[2])
+            if q[1] == "stat" and any(q[2].startswith(d) and q[2] != d for d in dirs):
+                continue
+            if q[2] == "-":          # utime("") / unlink("") on an empty stored name: no file is named
+                continue
+            cur.append((q[1], q[2]))
+    return out
+
+
+def tight_model_msgs(block):
+    """model block -> (tree variant, fixed variant) per message"""
+    tree, alt = [], []
+    ct = ca = None
+    in_alt = False
+    for l in block:
+        if l.startswith("m "):
+            ct, ca, in_alt = [], None, False
+            tree.append(ct)
+            alt.append(ct)
+        elif l == "alt1 -":
+            ca = []
+            alt[-1] = ca
+        elif l.startswith("alt1 fs ") and ca is not None:
+            q = l.split()
+            ca.append((q[2], q[3]))
+        elif l.startswith("fs ") and ct is not None:
+            q = l.split()
+            ct.append((q[1], q[2]))
+    return tree, alt
 
 
 def split_alt(block):
@@ -377,9 +468,10 @@ def oracle_case(env, case, iblocks):
         crash = [l for l in blk if l.startswith("crash")]
         body = blk[1:]
         if op[0] == "tight":
-            en, vo, suf, what, path = op[1:]
+            en, vo, suf, sq = op[1:]
             ftproot = (env["root"] + "/sb" + suf).encode()
-            pathops = [l.split() for l in body if l.startswith("fs ") and l.split()[1] in PATH_OPS]
+            pathops = [l.split() for l in body if l.startswith("fs ") and l.split()[1] in PATH_OPS + ("creat", "utime") and len(l.split()) > 2
+                       and l.split()[2] != "-"]          # an empty name names no file (the call fails with ENOENT)
             feat.update(enabled=en, viewonly=vo)
             if crash:
                 fails.append((j, "TightVNC extension request crashes the server: %s" % crash[0], dict(feat, kind="crash")))
@@ -394,8 +486,8 @@ def oracle_case(env, case, iblocks):
                     real = os.path.realpath(p)
                     base = os.path.realpath(ftproot)
                     if not (real == base or real.startswith(base + b"/")):
-                        fails.append((j, "TightVNC extension: '%s' on %r, outside the transfer root %r (request path %r)" %
-                                      (po[1], p, ftproot, path), dict(feat, kind="tight-escape", fsop=po[1])))
+                        fails.append((j, "TightVNC extension: '%s' on %r, outside the transfer root %r (messages %r)" %
+                                      (po[1], p, ftproot, [(k, a[:60]) for k, a in sq]), dict(feat, kind="tight-escape", fsop=po[1])))
                         break
             continue
         if crash:
@@ -498,13 +590,24 @@ def compare_case(env, case, il, ml):
         mod = mb[j + 1] if j + 1 < len(mb) else ["<missing>"]
         crash = [l for l in impl if l.startswith("crash")]
         if op[0] == "tight":
-            wants = [l.split()[-1] for l in mod if "target " in l]
-            pathops = [l.split() for l in impl if l.startswith("fs ") and l.split()[1] in PATH_OPS]
-            got = pathops[0][2] if pathops else "none"
-            if got not in wants and not crash and mism is None:
-                mism = (j, "tight: implementation operates on %s, model target %s" % (got[:120], wants[0][:120] if wants else "?"))
-            elif wants and got != wants[0]:
-                nalt += 1
+            im = tight_msgs(impl)
+            mt, ma = tight_model_msgs(mod)
+            for k in range(max(len(im), len(mt))):
+                a = im[k] if k < len(im) else []
+                t = mt[k] if k < len(mt) else []
+                f = ma[k] if k < len(ma) else []
+                okt = a == t[:len(a)] and (bool(a) == bool(t) or not a)
+                okf = a == f[:len(a)]
+                if not a and t and not crash:
+                    # the model lists the calls a handler can make; none at all is accepted only for an over-long name
+                    okt = any(len(x[1]) > 7000 for x in t)
+                if okt:
+                    continue
+                if okf:
+                    nalt += 1
+                    continue
+                if not crash and mism is None:
+                    mism = (j, "tight message %d: implementation %s, model %s" % (k, [(x, y[-24:]) for x, y in a][:3], [(x, y[-24:]) for x, y in t][:3]))
             continue
         tree, alts = split_alt(mod)
         if crash:
